@@ -100,6 +100,8 @@ type Random struct {
 	// Gens are the process sets of the generations after a stop (one stop + adopt per entry).
 	Gens  []map[string]ProcSpec `json:"gens"`
 	PStop float64               `json:"pstop"`
+	// Mute: acknowledgement types the broker withholds during the scheduled part (it answers again in the epilogue)
+	Mute []string `json:"mute"`
 	// PStopIO: probability of a stop when some process is about to do a Persistence or network write
 	PStopIO float64 `json:"pstopio"`
 	// Burst: the named process stays parked until step At, then runs alone until it blocks or ends
@@ -843,6 +845,14 @@ func (x *Exec) epilogue() {
 			}
 		}
 	}()
+	if x.B.Random != nil && len(x.B.Random.Mute) > 0 {
+		// acknowledgements were withheld: the network heals with a connection loss, so that the client resends
+		for _, c := range x.W.Conns() {
+			if !c.IsClosed() {
+				c.Break()
+			}
+		}
+	}
 	// connections that were left with unread or unconsumed data: let the broker catch up
 	for _, c := range x.W.Conns() {
 		if !c.IsClosed() {
@@ -917,6 +927,11 @@ func (x *Exec) drained() bool {
 	}
 	if x.W.Broker.OutPending() != 0 {
 		return false
+	}
+	for _, k := range x.Store.Keys() {
+		if k >= 0x8000 && k < 0x10000 {
+			return false // an outbound transfer (also one adopted from an earlier incarnation) is still pending
+		}
 	}
 	for _, c := range x.W.Conns() {
 		if !c.IsClosed() && c.Pending() != 0 {
@@ -1026,6 +1041,14 @@ func (x *Exec) finish() {
 func (x *Exec) randomRun(r *Random) {
 	rng := rand.New(rand.NewSource(r.Seed))
 	x.W.AutoBroker = true
+	for _, t := range r.Mute {
+		x.W.Broker.Mute[t] = true
+	}
+	defer func() {
+		for _, t := range r.Mute {
+			delete(x.W.Broker.Mute, t)
+		}
+	}()
 	faults := r.Faults
 	last := ""
 	settle := 0
